@@ -55,6 +55,17 @@ class IncEl(_Structural):
         return value
 
 
+class ListAppEl(_Structural):
+    """user element: context["l"].append(x) in place (the list is created if absent)"""
+
+    def __init__(self, x):
+        self.x = x
+
+    def __call__(self, value):
+        value[1].setdefault("l", []).append(self.x)
+        return value
+
+
 class AppEl(_Structural):
     """user element: data.append(x) in place"""
 
@@ -97,12 +108,16 @@ class FRBranch(_Structural):
     """fill/request element: applies the mutators in place, keeps the values, yields them on request"""
     _ignore = ("b",)
 
-    def __init__(self, els, b):
-        self.els, self.b, self.stored = els, b, []
+    def __init__(self, els, b, stop=None):
+        self.els, self.b, self.stored, self.stop, self.nfilled = els, b, [], stop, 0
 
     def fill(self, value):
+        import lena.core
         for el in self.els:
             value = el(value)
+        if self.stop is not None and self.nfilled >= self.stop:
+            raise lena.core.LenaStopFill()
+        self.nfilled += 1
         self.stored.append(value)
 
     def request(self):
@@ -140,6 +155,8 @@ def build_mut(mu, shared=None):
     t = mu["t"]
     if t == "inc":
         return IncEl(mu["key"])
+    if t == "lapp":
+        return ListAppEl(mu["x"])
     if t == "app":
         return AppEl(mu["x"])
     if t == "set":
@@ -173,7 +190,7 @@ def build_branch(b, br, shared=None):
     if end == "count":
         return lena.core.FillComputeSeq(*(els + [lena.flow.Count(br["name"]), Tag(b)]))
     if end == "fr":
-        return FRBranch(els, b)
+        return FRBranch(els, b, stop)
     if end == "src":
         return lena.core.Source(SrcEl(b))
     raise ValueError(br)
@@ -225,13 +242,23 @@ def run_scenario(brs, n, bs, drv, rq, copy_buf=True, share=False):
             take(item)
     elif drv == "zip":
         z = lena.flow.Zip(branches)
-        for v in values:
-            z.fill(v)
-        for tup in z.compute():
-            if not isinstance(tup, tuple) or len(tup) != len(branches):
-                raise ValueError("unexpected Zip output %r" % (tup,))
-            for item in tup:
-                take(item)
+
+        def take_zipped(gen):
+            for tup in gen:
+                if not isinstance(tup, tuple) or len(tup) != len(branches):
+                    raise ValueError("unexpected Zip output %r" % (tup,))
+                for item in tup:
+                    take(item)
+        if brs[0]["end"] == "fr":
+            for v in values:
+                z.fill(v)
+                if rq:
+                    take_zipped(z.request())
+            take_zipped(z.request())
+        else:
+            for v in values:
+                z.fill(v)
+            take_zipped(z.compute())
     else:
         raise ValueError(drv)
     per = {}
@@ -249,12 +276,14 @@ def brs_key(brs):
 
 # ---- random configurations beyond the exhaustive bounds
 def rand_mut(rnd, end):
-    t = rnd.choice(["inc", "inc", "app", "set", "setn", "mkfn", "var"] + (["cnt"] if end == "seq" else []))
+    t = rnd.choice(["inc", "inc", "app", "lapp", "set", "setn", "mkfn", "var"] + (["cnt"] if end == "seq" else []))
     M = lambda t, nk, key, x, s, ia: {"t": t, "nk": nk, "key": key, "x": x, "s": s, "ia": ia}
     if t == "inc":
         return M("inc", "", rnd.choice(["hits", "a", "k"]), 0, "", False)
     if t == "app":
         return M("app", "", "", rnd.randint(10, 19), "", False)
+    if t == "lapp":
+        return M("lapp", "", "l", rnd.randint(50, 59), "", False)
     if t == "set":
         return M("set", "", rnd.choice(["k", "a", "z"]), rnd.randint(20, 29), "", False)
     if t == "setn":
@@ -278,7 +307,7 @@ def rand_branch(rnd, ends):
             seen.add(mu["t"])
             muts.append(mu)
     stop = NONE
-    if end == "store" and rnd.random() < 0.3:
+    if end in ("store", "fr") and rnd.random() < 0.3:
         stop = rnd.randint(0, 4)
     return {"muts": muts, "end": end, "stop": stop, "name": rnd.choice(["c1", "c2"]) if end == "count" else ""}
 
@@ -313,13 +342,15 @@ def _rand_scenario(rnd):
         bs, rq = 1, 0
     elif drv == "fillreq":
         brs = [rand_branch(rnd, ["fr"]) for _ in range(nb)]
+        for br in brs:
+            br["stop"] = NONE
         bs, rq = 1, rnd.randint(0, 1)
     else:
-        end = rnd.choice(["store", "count"])
+        end = rnd.choice(["store", "count", "fr"])
         brs = [rand_branch(rnd, [end]) for _ in range(nb)]
         for br in brs:
             br["stop"] = NONE
-        bs, rq = 1, 0
+        bs, rq = 1, (rnd.randint(0, 1) if end == "fr" else 0)
     return {"brs": brs, "N": rnd.randint(0, 7), "bs": bs, "drv": drv, "rq": rq}
 
 
@@ -419,6 +450,8 @@ def apply_mut(ctx, mu):
     t = mu["t"]
     if t == "inc":
         ctx[mu["key"]] = ctx.get(mu["key"], 0) + 1
+    elif t == "lapp":
+        ctx.setdefault("l", []).append(mu["x"])
     elif t == "set":
         ctx[mu["key"]] = mu["x"]
     elif t == "setn":
